@@ -6,4 +6,8 @@ mkdir -p "$HERE/.deps" "$HERE/evidence" "$HERE/replays"
 if ! PYTHONPATH="$HERE/.deps" /venv/bin/python -c "import hypothesis" 2>/dev/null; then
   /venv/bin/pip install --no-index --find-links /opt/veriftools/wheels --target "$HERE/.deps" hypothesis || exit 1
 fi
+# atheris (coverage-guided legs of the thorough tier) is optional: the legs report `atheris_unavailable` without it
+if ! PYTHONPATH="$HERE/.deps" /venv/bin/python -c "import atheris" 2>/dev/null; then
+  /venv/bin/pip install --no-index --find-links /opt/veriftools/wheels --target "$HERE/.deps" atheris >/dev/null 2>&1 || echo "atheris not installed (optional)"
+fi
 PYTHONPATH="$HERE:${VERIF_REPO:-/repo}:$HERE/.deps" /venv/bin/python -c "import harness.compat, hypothesis, inscripta.biocantor.io.models; print('setup ok', hypothesis.__version__)"
